@@ -3,3 +3,4 @@
 set -e
 cd "$(dirname "$0")/lean"
 lake build
+lake build $(ls FsVerif/Props/*.lean | sed 's|/|.|g; s|\.lean$||')
